@@ -190,36 +190,72 @@ fn c03_dec_b() {
     core::mem::forget(data);
 }
 
+/// Closed-form reference for a STRING / OBJECT_PATH at constant message offset POS inside `buf[..len]`:
+/// returns (text start, text length, bytes consumed) when the bytes start with a valid encoding.
+/// All indices are constants after unrolling (POS and the candidate length are compile-time / loop constants).
+fn ref_string<const POS: usize, const N: usize>(buf: &[u8; N], len: usize, be: bool, content_ok: fn(&[u8]) -> bool) -> Option<(usize, usize, usize)> {
+    let pad = (4 - POS % 4) % 4;
+    if len < pad + 4 {
+        return None;
+    }
+    let mut i = 0;
+    while i < pad {
+        if buf[i] != 0 {
+            return None;
+        }
+        i += 1;
+    }
+    let w = [buf[pad], buf[pad + 1], buf[pad + 2], buf[pad + 3]];
+    let l = if be { u32::from_be_bytes(w) } else { u32::from_le_bytes(w) } as usize;
+    let start = pad + 4;
+    // text and its NUL terminator must lie inside the input
+    if l >= len - start {
+        return None;
+    }
+    let mut cand = 0;
+    while cand < N - start {
+        if l == cand {
+            let mut k = 0;
+            while k < cand {
+                if buf[start + k] == 0 {
+                    return None;
+                }
+                k += 1;
+            }
+            if buf[start + cand] != 0 {
+                return None;
+            }
+            if !crate::refmodel::dbus::utf8_valid(&buf[start..start + cand]) {
+                return None;
+            }
+            if !content_ok(&buf[start..start + cand]) {
+                return None;
+            }
+            return Some((start, cand, start + cand + 1));
+        }
+        cand += 1;
+    }
+    None
+}
+
 /// STRING-like types: N bytes of arbitrary input. The message offset is dispatched to a const generic so that all
 /// alignment arithmetic is concrete inside each instantiation (one query still covers offsets 0..=3).
 macro_rules! dec_text {
-    ($h:ident, $body:ident, $ty:ty, $sig:expr, $N:expr, $rd:ident, $U:expr, |$t:ident| $content_ok:expr) => {
+    ($h0:ident, $h1:ident, $h2:ident, $h3:ident, $body:ident, $ty:ty, $sig:expr, $N:expr, $U:expr, |$t:ident| $content_ok:expr) => {
         fn $body<const POS: usize>(buf: &[u8; $N], len: usize, be: bool) {
             let data = Data::new(&buf[..len], ctx(POS, be));
             let r = data.deserialize_for_signature::<_, $ty>($sig);
-            let mut rd = In::new(&buf[..len], POS, be);
-            let model = match rd.$rd() {
-                Some((start, n)) => {
-                    let $t = &buf[start..start + n];
-                    if $content_ok {
-                        Some((start, n))
-                    } else {
-                        None
-                    }
-                }
-                None => None,
-            };
+            fn content_ok($t: &[u8]) -> bool {
+                $content_ok
+            }
+            let model = ref_string::<POS, $N>(buf, len, be, content_ok);
             match (&r, model) {
-                (Ok((v, used)), Some((start, n))) => {
-                    kani::cover!(n == 2, "two-byte text accepted");
-                    assert!(*used == rd.pos, "consumed byte count differs");
-                    let got: &[u8] = v.as_bytes();
-                    assert!(got.len() == n);
-                    let mut i = 0;
-                    while i < n {
-                        assert!(got[i] == buf[start + i]);
-                        i += 1;
-                    }
+                (Ok((v, used)), Some((start, n, mused))) => {
+                    kani::cover!(true, "valid encoding accepted");
+                    assert!(*used == mused, "consumed byte count differs");
+                    // the decoded text is exactly the n bytes after the length field (borrowed from the input)
+                    assert!(v.len() == n, "decoded text length differs");
+                    assert!(v.as_ptr() == buf[start..].as_ptr(), "decoded text is not the encoded text");
                 }
                 (Err(_), None) => {
                     kani::cover!(len == $N, "full-length input rejected");
@@ -230,6 +266,12 @@ macro_rules! dec_text {
             core::mem::forget(r);
             core::mem::forget(data);
         }
+        dec_text!(@proof $h0, $body, 0, $N, $U);
+        dec_text!(@proof $h1, $body, 1, $N, $U);
+        dec_text!(@proof $h2, $body, 2, $N, $U);
+        dec_text!(@proof $h3, $body, 3, $N, $U);
+    };
+    (@proof $h:ident, $body:ident, $pos:expr, $N:expr, $U:expr) => {
         #[kani::proof]
         #[kani::unwind($U)]
         #[kani::stub(alloc::fmt::format, no_format)]
@@ -240,17 +282,68 @@ macro_rules! dec_text {
             let buf: [u8; $N] = kani::any();
             let len: usize = kani::any();
             kani::assume(len <= $N);
-            let pos: usize = kani::any();
-            kani::assume(pos < 4);
             let be: bool = kani::any();
-            match pos {
-                0 => $body::<0>(&buf, len, be),
-                1 => $body::<1>(&buf, len, be),
-                2 => $body::<2>(&buf, len, be),
-                _ => $body::<3>(&buf, len, be),
-            }
+            $body::<$pos>(&buf, len, be);
         }
     };
 }
-dec_text!(c03_dec_s, c03_dec_s_body, &str, Signature::Str, 8, string, 10, |_t| true);
-dec_text!(c03_dec_o, c03_dec_o_body, ObjectPath<'_>, Signature::ObjectPath, 8, string, 10, |t| crate::refmodel::names::object_path(t));
+dec_text!(c03_dec_s_p0, c03_dec_s_p1, c03_dec_s_p2, c03_dec_s_p3, c03_dec_s_body, &str, Signature::Str, 8, 10, |_t| true);
+dec_text!(c03_dec_o_p0, c03_dec_o_p1, c03_dec_o_p2, c03_dec_o_p3, c03_dec_o_body, ObjectPath<'_>, Signature::ObjectPath, 8, 10, |t| crate::refmodel::names::object_path(t));
+
+/// Dynamic (`Value`) target for string-like signatures: the path taken for every variant payload
+/// (`ValueSeed::visit_borrowed_str`), which must apply the same validity rules as the typed path.
+macro_rules! dec_text_dyn {
+    ($h:ident, $pos:expr, $sig:expr, |$t:ident| $content_ok:expr, |$v:ident| $text:expr) => {
+        #[kani::proof]
+        #[kani::unwind(10)]
+        #[kani::stub(alloc::fmt::format, no_format)]
+        #[kani::stub(<std::os::fd::OwnedFd as core::ops::Drop>::drop, no_close)]
+        #[kani::stub(core::str::from_utf8, naive_from_utf8)]
+        #[kani::stub(core::slice::memchr::memchr, naive_memchr)]
+        fn $h() {
+            let buf: [u8; 8] = kani::any();
+            let len: usize = kani::any();
+            kani::assume(len <= 8);
+            let be: bool = kani::any();
+            let data = Data::new(&buf[..len], ctx($pos, be));
+            let r = data.deserialize_for_dynamic_signature::<_, zvariant::Value<'_>>($sig);
+            fn content_ok($t: &[u8]) -> bool {
+                $content_ok
+            }
+            let model = ref_string::<$pos, 8>(&buf, len, be, content_ok);
+            match (&r, model) {
+                (Ok(($v, used)), Some((start, n, mused))) => {
+                    kani::cover!(true, "valid encoding accepted");
+                    assert!(*used == mused, "consumed byte count differs");
+                    let text: Option<&str> = $text;
+                    match text {
+                        Some(t) => {
+                            assert!(t.len() == n, "decoded text length differs");
+                            assert!(t.as_ptr() == buf[start..].as_ptr(), "decoded text is not the encoded text");
+                        }
+                        None => assert!(false, "decoded value has the wrong variant"),
+                    }
+                }
+                (Err(_), None) => {
+                    kani::cover!(len == 8, "full-length input rejected");
+                }
+                (Ok(_), None) => assert!(false, "decoder accepted an invalid encoding"),
+                (Err(_), Some(_)) => assert!(false, "decoder rejected a valid encoding"),
+            }
+            core::mem::forget(r);
+            core::mem::forget(data);
+        }
+    };
+}
+dec_text_dyn!(c03_dyn_o_p0, 0, Signature::ObjectPath, |t| crate::refmodel::names::object_path(t), |v| match v {
+    zvariant::Value::ObjectPath(p) => Some(p.as_str()),
+    _ => None,
+});
+dec_text_dyn!(c03_dyn_o_p2, 2, Signature::ObjectPath, |t| crate::refmodel::names::object_path(t), |v| match v {
+    zvariant::Value::ObjectPath(p) => Some(p.as_str()),
+    _ => None,
+});
+dec_text_dyn!(c03_dyn_s_p0, 0, Signature::Str, |_t| true, |v| match v {
+    zvariant::Value::Str(p) => Some(p.as_str()),
+    _ => None,
+});
